@@ -43,8 +43,12 @@ def seed() -> int:
         return 0
 
 
+_wd_counter = [0]
+
+
 def workdir(tag: str) -> Path:
-    d = WORK / f"{tag}-{os.getpid()}-{int(time.time()*1000) % 10**9}"
+    _wd_counter[0] += 1
+    d = WORK / f"{tag}-{os.getpid()}-{int(time.time()*1000) % 10**9}-{_wd_counter[0]}"
     d.mkdir(parents=True, exist_ok=True)
     return d
 
@@ -264,7 +268,7 @@ def tlc_eval(module: str, cfg: str, cases: Any, *, timeout: int = 600, tag: str 
             json.dump(cases, f, separators=(",", ":"))
         res = run_tlc(module, cfg, workers=1, timeout=timeout, env={"TRACE_FILE": str(tf), "OUT_FILE": str(of)}, tag=tag)
         if not res.no_error or not of.exists():
-            raise MachineryError(f"tlc_eval {module}: {res.violated_invariant or res.other_error or 'no output'}\n{res.error_trace()[:3000]}")
+            raise MachineryError(f"tlc_eval {module}: {res.violated_invariant or res.other_error or 'no output'}\n{res.error_trace()[:3000]}\n{res.out[-1500:]}")
         out = json.load(open(of))
         if out.get("n") != len(cases):
             raise MachineryError(f"tlc_eval {module}: {out.get('n')} of {len(cases)} cases")
